@@ -2,6 +2,7 @@
 from __future__ import annotations
 
 import ast
+import copy
 import re
 
 from .. import jmodel as J
@@ -46,6 +47,53 @@ INFORMATIONAL = {
 
 # ------------------------------------------------------------------ locals by role (no rule below depends on what a local is called)
 
+def _untuple(fn):
+    """`a, b = x, y` written as the assignments it abbreviates (`a = x; b = y`), in place, wherever that is the same program: no later
+    value of the display reads what an earlier target of it binds.  The rules below read one setting per statement."""
+    def split(st):
+        if not (isinstance(st, ast.Assign) and len(st.targets) == 1 and isinstance(st.targets[0], (ast.Tuple, ast.List)) and isinstance(st.value, (ast.Tuple, ast.List))):
+            return None
+        ts, vs = st.targets[0].elts, st.value.elts
+        if len(ts) != len(vs) or len(ts) < 2 or any(isinstance(e, ast.Starred) for e in list(ts) + list(vs)):
+            return None
+        for i, t in enumerate(ts):
+            if isinstance(t, ast.Name):
+                if any(isinstance(x, ast.Name) and x.id == t.id for v in vs[i + 1:] for x in ast.walk(v)):
+                    return None
+            elif isinstance(t, (ast.Attribute, ast.Subscript)):
+                txt = ast.unparse(t)
+                if any(txt in ast.unparse(v) for v in vs[i + 1:]):
+                    return None
+            else:
+                return None
+        return [ast.copy_location(ast.Assign(targets=[t], value=v), st) for t, v in zip(ts, vs)]
+
+    def rec(node):
+        for fld in ("body", "orelse", "finalbody"):
+            b = getattr(node, fld, None)
+            if isinstance(b, list) and b and isinstance(b[0], ast.stmt):
+                out = []
+                for st in b:
+                    if not isinstance(st, (ast.FunctionDef, ast.AsyncFunctionDef, ast.ClassDef)):
+                        rec(st)
+                    out += split(st) or [st]
+                setattr(node, fld, out)
+        for hd in getattr(node, "handlers", []) or []:
+            rec(hd)
+    rec(fn)
+    ast.fix_missing_locations(fn)
+    return fn
+
+
+def _plain(pkg, cls, meth):
+    """a private copy of method `cls.meth` as written, tuple assignments split (see _untuple)"""
+    import copy
+    cache = pkg.__dict__.setdefault("_c20_plain", {})
+    if (cls, meth) not in cache:
+        cache[(cls, meth)] = _untuple(copy.deepcopy(pkg.method(cls, meth)))
+    return cache[(cls, meth)]
+
+
 def _toml_root(fn):
     """the local holding the parsed configuration: assigned from <x>.read() / tomlkit.loads(..) / tomlkit.parse(..)"""
     for n in [x for x in _in_order(fn) if isinstance(x, ast.Assign)]:
@@ -83,7 +131,8 @@ def _content_writer(pkg):
     if "fn" in cache:
         return cache["fn"]
     import copy
-    fn = pkg.expanded("BaseConfiguration", "content")
+    base = _untuple(copy.deepcopy(pkg.expanded("BaseConfiguration", "content")))
+    fn = base
     try:
         from ..normalize import unroll_static_loops, _Subst, _ConstFStr
         stores = {}
@@ -113,12 +162,12 @@ def _content_writer(pkg):
                         changed = True
             new_body.append(st)
         if changed:
-            fn = copy.deepcopy(pkg.expanded("BaseConfiguration", "content"))
+            fn = copy.deepcopy(base)
             fn.body = [copy.deepcopy(x) for x in new_body]
             ast.fix_missing_locations(fn)
             unroll_static_loops(fn)
     except (RecursionError, ImportError, AttributeError, TypeError):
-        fn = pkg.expanded("BaseConfiguration", "content")
+        fn = base
     cache["fn"] = fn
     return fn
 
@@ -131,7 +180,7 @@ def _render_handle(pkg):
     if "fn" not in cache:
         import copy
         from ..normalize import expand_kwargs_dicts, _ExprInliner
-        fn = copy.deepcopy(pkg.expanded("RenderCommand", "handle", keep=("option", "confirm", "call", "line", "argument")))
+        fn = _untuple(copy.deepcopy(pkg.expanded("RenderCommand", "handle", keep=("option", "confirm", "call", "line", "argument"))))
 
         def helper(call):
             f = call.func
@@ -155,7 +204,7 @@ def _init_handle(pkg):
     if "fn" not in cache:
         import copy
         from ..normalize import expand_kwargs_dicts
-        fn = copy.deepcopy(pkg.expanded("InitCommand", "handle", keep=("option", "validate")))
+        fn = _untuple(copy.deepcopy(pkg.expanded("InitCommand", "handle", keep=("option", "validate"))))
         try:
             expand_kwargs_dicts(fn)           # BaseConfiguration(name, **settings) with `settings` a display of the function
         except RecursionError:
@@ -168,7 +217,11 @@ def _example_handle(pkg):
     """ExampleCommand.handle with the helpers of the class / the module it may have been split into put back (one option value composed
     by a helper method, ..); the primitives of the command framework (self.option / choice / confirm / call / line) are not methods of
     the package and stay calls"""
-    return pkg.expanded("ExampleCommand", "handle", keep=("option", "choice", "confirm", "call", "line", "argument"))
+    cache = pkg.__dict__.setdefault("_example_handle", {})
+    if "fn" not in cache:
+        import copy
+        cache["fn"] = _untuple(copy.deepcopy(pkg.expanded("ExampleCommand", "handle", keep=("option", "choice", "confirm", "call", "line", "argument"))))
+    return cache["fn"]
 
 
 def _alias_closure(fn, name):
@@ -884,7 +937,7 @@ def _r13(ctx, pkg):
     """BaseConfiguration.__init__ is the input stage of the writer: every setting it is handed is stored WHOLE in the field content()
     writes (the argument itself, a copy, an empty default when nothing was given).  A field computed by filtering the argument
     (`[s for s in required_species if s not in self._allowedspecies]`) writes less than what was configured."""
-    init = pkg.cls("BaseConfiguration").methods["__init__"]
+    init = _plain(pkg, "BaseConfiguration", "__init__")
     params = {a.arg for a in init.args.args if a.arg != "self"}
     n = 0
     for st in init.body:
@@ -978,7 +1031,7 @@ def _r1(ctx, pkg):
     cfn = _content_writer(pkg)
     _, writes, wvar = _alias_paths(cfn, {_toml_root(cfn): ""})
     rfn = _render_handle(pkg)
-    efn = pkg.method("ExtendCommand", "handle")
+    efn = _untuple(copy.deepcopy(pkg.expanded("ExtendCommand", "handle", keep=("option", "confirm", "call", "line", "argument"))))
     ctx.saw(RENDER, "RenderCommand.handle"), ctx.saw(EXTEND, "ExtendCommand.handle")
     reads, rwrites, rvar = _alias_paths(rfn, {_toml_root(rfn): ""})
     ereads, _, _ = _alias_paths(efn, {_toml_root(efn): ""})
@@ -1042,7 +1095,7 @@ def _kwargs_dict(fn, callee, kw):
 
 
 def _r2(ctx, pkg):
-    init = pkg.cls("BaseConfiguration").methods["__init__"]
+    init = _plain(pkg, "BaseConfiguration", "__init__")
     params = [a.arg for a in init.args.args if a.arg != "self"]
     h = _init_handle(pkg)
     ctx.saw(INIT, "InitCommand.handle")
@@ -1418,7 +1471,7 @@ def _r4_r6_r7(ctx, pkg):
 
 
 def _r5(ctx, pkg):
-    ih = pkg.method("InitCommand", "handle")
+    ih = _plain(pkg, "InitCommand", "handle")
     table = None
     # by value (sa.consteval): a dict bound in handle() or at class level that maps solver names to {device: [methods]}
     from ..consteval import fold, NotConstant, class_attr_resolver
